@@ -485,6 +485,7 @@ func famCli(tr *Trace, id *int, scratch, bin, behaviours string) int {
 	// every format has an override block that changes its bytes: the tool must build the effective settings of the format it
 	// packages, however it came to know the format (-p or the target's extension)
 	c.Depends = []string{"base-dep"}
+	c.Vendor = "Vendor Inc\n" // (given to the tool through a variable whose value ends in a newline: used as it is)
 	c.Ov = map[string]*OvCfg{}
 	for _, f := range allFormats {
 		c.Ov[f] = &OvCfg{Depends: []string{"dep-for-" + f}, Umask: 0o27}
@@ -515,8 +516,9 @@ func famCli(tr *Trace, id *int, scratch, bin, behaviours string) int {
 		// expandable field, a relation, a content source that opts in); the reference build below uses the literal values
 		yCli := strings.Replace(y, "version: \"1.2.3\"", "version: \"${VERIF_CLI_VERSION}\"", 1)
 		yCli = strings.Replace(yCli, "- \"base-dep\"", "- \"${VERIF_CLI_DEP}\"", 1)
+		yCli = strings.Replace(yCli, "vendor: "+yq(c.Vendor), "vendor: \"${VERIF_CLI_VENDOR}\"", 1)
 		yCli = strings.Replace(yCli, "  - src: "+yq(root+"/src/bin")+"\n", "  - src: \"${VERIF_CLI_ROOT}/src/bin\"\n    expand: true\n", 1)
-		if yCli == y || !strings.Contains(yCli, "VERIF_CLI_ROOT") || !strings.Contains(yCli, "VERIF_CLI_DEP") {
+		if yCli == y || !strings.Contains(yCli, "VERIF_CLI_ROOT") || !strings.Contains(yCli, "VERIF_CLI_DEP") || !strings.Contains(yCli, "VERIF_CLI_VENDOR") {
 			panic("famCli: the configuration no longer has the values the environment references replace")
 		}
 		must(os.WriteFile(cfgPath, []byte(yCli), 0o644))
@@ -540,6 +542,8 @@ func famCli(tr *Trace, id *int, scratch, bin, behaviours string) int {
 			target = filepath.Join(outDir, "custom-name.bin")
 		case "file_other_ext":
 			target = filepath.Join(outDir, "custom-name"+exts[other[f]])
+		case "file_no_ext":
+			target = filepath.Join(outDir, "artifact")
 		case "dir":
 			target = outDir
 		case "dir_slash":
@@ -574,7 +578,7 @@ func famCli(tr *Trace, id *int, scratch, bin, behaviours string) int {
 		t0 := time.Now()
 		cmd := exec.Command(bin, args...)
 		cmd.Dir = cwd
-		cmd.Env = append(os.Environ(), "TZ=UTC", "VERIF_CLI_VERSION=1.2.3", "VERIF_CLI_DEP=base-dep", "VERIF_CLI_ROOT="+root)
+		cmd.Env = append(os.Environ(), "TZ=UTC", "VERIF_CLI_VERSION=1.2.3", "VERIF_CLI_DEP=base-dep", "VERIF_CLI_ROOT="+root, "VERIF_CLI_VENDOR="+c.Vendor)
 		var so, se bytes.Buffer
 		cmd.Stdout, cmd.Stderr = &so, &se
 		err := cmd.Run()
@@ -598,7 +602,7 @@ func famCli(tr *Trace, id *int, scratch, bin, behaviours string) int {
 		// where is the package expected
 		expPath := ""
 		switch targetKind {
-		case "file", "file_foreign_ext", "file_other_ext", "devfull", "existing_larger":
+		case "file", "file_foreign_ext", "file_other_ext", "file_no_ext", "devfull", "existing_larger":
 			expPath = target
 		case "dir", "dir_slash":
 			expPath = filepath.Join(outDir, refName)
